@@ -15,7 +15,7 @@ BASES = [
     ("deref", [{"mov": [{"$deref": {"main_reg": "%rax", "constant_offset": "0x8"}}, "rbx"]}, "ret"]),
     ("op_or", [{"mov": [{"$or": ["rax", "rbx"]}, "rcx"]}, "ret"]),
     ("names", ["movl", {"movq": ["raxx"]}, "ret"]),
-    ("times_twice", ["push", {"mov": {"times": 2}}, "pop", {"mov": {"times": 3}}, "mov", "ret"]),
+    ("times_twice", ["push", {"mov": {"times": 2}}, "pop", {"mov": {"times": 3}}, "ret", "mov"]),
     ("ints", [{"mov": [0, "rax"]}, {"add": [8, "rax"]}, "ret"]),
     ("dup", ["papa", {"mov": ["0xffff", "rax"]}, "ret"]),
     ("zero", [{"$or": [{"xor": ["rax", "rax"]}, {"mov": ["rax", 0]}]}, {"$or": [{"xor": ["rbx", "rbx"]}, {"mov": ["rbx", 0]}]}, "ret"]),
